@@ -6,7 +6,7 @@ shift 2d, same d); T4 children are (s << 2d) + i for the contiguous range i in [
 triple; T5 guard orientation; get_res0_cells = cell_to_children(WORLD_CELL, Some(0)).
 Not decided: distinctness / exactly-one-parent covering as theorems over all cells."""
 from ..terms import fn_terms, fmt, strip_site, walk, const_int, is_const
-from ..query import (loops_of, every_iteration, returns_under, is_variant, linear, ieval, Undetermined, leaves_under,
+from ..query import (option_default, loops_of, every_iteration, returns_under, is_variant, linear, ieval, Undetermined, leaves_under,
                      regime_assumptions, deep_resolve)
 from ..consts import const_py
 from ..run import where
@@ -67,10 +67,11 @@ def run(ctx):
         nbuilt += 1
         f = dict(zip(cell[4], cell[3]))
         T = f["resolution"]
-        okT = T[0] == "call" and T[1].endswith("Option::unwrap_or") and T[2][0] == ("param", 2)
+        od = option_default(ft, T)
+        okT = od is not None and od[0] == ("param", 2) and od[1] is not None and od[1][0] != "agg"
         cur = None
         if okT:
-            co, k = linear(T[2][1])
+            co, k = linear(od[1])
             curs = [a for a in co if dec_field(a, "resolution")]
             okT = len(curs) == 1 and co[curs[0]] == 1 and k == 1 and len(co) == 1
             cur = curs[0] if curs else None
@@ -234,9 +235,10 @@ def run(ctx):
             continue
         f = dict(zip(cell[4], cell[3]))
         T = f["resolution"]
-        okT = T[0] == "call" and T[1].endswith("Option::unwrap_or") and T[2][0] == ("param", 2)
+        od = option_default(fp, T)
+        okT = od is not None and od[0] == ("param", 2) and od[1] is not None and od[1][0] != "agg"
         if okT:
-            co, k = linear(T[2][1])
+            co, k = linear(od[1])
             curs = [a for a in co if dec_field(a, "resolution")]
             okT = len(curs) == 1 and co[curs[0]] == 1 and k == -1 and len(co) == 1
         run.inst("C07.T1", "parent-target", okT, "parent is built with resolution %s (must be the requested target, default current-1)" % fmt(T), where(c.span))
